@@ -6,6 +6,11 @@ use crate::model::{LogValue, LogEvent};
 use serde_json::Value;
 use std::collections::BTreeMap;
 
+/// Top-level keys the record schema itself uses.
+const RECORD_KEYS: &[&str] = &[
+  "timestamp", "level", "target", "message", "name", "span_id", "parent_id", "thread_id", "thread_name",
+];
+
 pub struct JsonLinesFormatter {
   config: JsonLinesEncoderInternal,
 }
@@ -62,12 +67,24 @@ impl EventFormatter for JsonLinesFormatter {
 
     if !event.fields.is_empty() {
       if self.config.flatten_fields {
-        // Flatten fields into the top-level map
+        // Flatten fields into the top-level map. A custom field named like one
+        // of the record's own keys can neither overwrite that key nor be dropped
+        // (nor stand in for it when the event has none, e.g. a `message` field on
+        // an event without message): such fields stay nested under "fields".
+        let mut nested = serde_json::Map::new();
         for (key, log_value) in &event.fields {
-          // Avoid overwriting core fields if a custom field has the same name
-          if !json_map.contains_key(key) {
-            json_map.insert(key.clone(), Self::log_value_to_json_value(log_value));
+          let value = Self::log_value_to_json_value(log_value);
+          if RECORD_KEYS.contains(&key.as_str()) {
+            nested.insert(key.clone(), value);
+          } else {
+            json_map.insert(key.clone(), value);
           }
+        }
+        if !nested.is_empty() {
+          if let Some(own) = json_map.remove("fields") {
+            nested.insert("fields".to_string(), own);
+          }
+          json_map.insert("fields".to_string(), Value::Object(nested));
         }
       } else {
         // Nest fields under the "fields" key
